@@ -281,6 +281,8 @@ def monitorE2e (cfg : E2eCfg) (st : E2eState) (op : SOp) (seg : List String) : O
           (if dataProtected && cfg.verifyPeer && (op.groups.any (·.dataOtherCert)) && returned then some "untrusted-data-peer-accepted" else none) <|>
           -- truncation: a protected download whose stream ends without close-notify is an error
           (if dataProtected && (op.groups.any (·.truncate)) && (op.name = "get" || op.name = "list") && returned then some "truncated-tls-stream-delivered-as-complete" else none) <|>
+          -- a data handshake the peer never answers (it closes the connection instead) is a failed handshake, whatever the transfer
+          (if dataProtected && (op.groups.any (·.earlyClose)) && returned then some "failed-data-handshake-not-reported" else none) <|>
           -- secrets never in the clear
           (if raws.any (fun r => (secretsOf op).any fun s => hexContains r.bytes s) then some "secret-visible-on-the-wire" else none)
   else if cfg.prop = "C11" then none
